@@ -222,6 +222,17 @@ pub fn gen_history(pid: &str, rng: &mut Rng, uni: &Universe, persistent: bool, s
                 71..=76 => h.push(SOp::Close { ns: pick_id(rng) }),
                 77..=88 => {
                     let id = pick_id(rng);
+                    // a third of the removals are tried on a document that was just opened, and tried twice:
+                    // the refusal must change nothing, not even what the next attempt is answered
+                    let twice = rng.chance(1, 3);
+                    if twice {
+                        // (back to back: the dumps read the document's entries through a replica, which marks
+                        // it open again)
+                        h.push(SOp::Open { ns: id });
+                        h.push(SOp::Remove { ns: id });
+                        h.push(SOp::Remove { ns: id });
+                        stats.inc("remove_while_open_twice");
+                    }
                     h.extend(dump(uni));
                     h.push(SOp::Remove { ns: id });
                     h.extend(dump(uni));
